@@ -183,6 +183,37 @@ def assert_pycel_from_repo():
 
 # --------------------------------------------------------------------------- shard entry point
 
+def _import_all_of_pycel():
+    import pkgutil
+    import pycel
+    import pycel.lib
+    for pkg in (pycel, pycel.lib):
+        for m in pkgutil.iter_modules(pkg.__path__):
+            if m.name != 'addin' and (not m.name.startswith('_') or m.name == '_verif'):      # addin: win32 only
+                importlib.import_module(f'{pkg.__name__}.{m.name}')
+
+
+def _on_worker_thread(fn):
+    import threading
+    box = {}
+
+    def body():
+        try:
+            fn()
+        except BaseException as exc:       # noqa
+            box['exc'] = exc
+    old = threading.stack_size(128 * 1024 * 1024)
+    try:
+        t = threading.Thread(target=body, name='vp-worker')
+        t.start()
+        t.join()
+    finally:
+        threading.stack_size(old)
+    if 'exc' in box:
+        raise box['exc']
+
+
+
 def shard_main(argv):
     prop, tier, shard, nshards, seed, out = argv[:6]
     shard, nshards, seed = int(shard), int(nshards), int(seed)
@@ -204,6 +235,16 @@ def shard_main(argv):
                 with open(replay) as f:
                     rec = json.load(f)
                 mod.replay(ctx, rec['case'])
+                if not ctx.violations:
+                    # the witness may come from a shard that works on a worker thread (see below)
+                    _on_worker_thread(lambda: mod.replay(ctx, rec['case']))
+            elif shard % 2:
+                # odd shards do all their work on a thread other than the one that imported pycel: nothing a
+                # property promises may depend on being on the importing (main) thread - a decimal context, a
+                # thread-local that was only initialised at import time
+                _import_all_of_pycel()
+                ctx.count('shards_on_a_worker_thread')
+                _on_worker_thread(lambda: mod.run(ctx))
             else:
                 mod.run(ctx)
         finally:
